@@ -18,7 +18,7 @@ import ast
 from .flow import Walker, const_str_list
 from .model import Func, Class, stmt_text
 
-VALUE_PRESERVING_NP = {"copy", "array", "asarray", "asanyarray", "atleast_1d", "atleast_2d", "squeeze", "ravel", "real", "float64", "asfarray"}
+VALUE_PRESERVING_NP = {"copy", "array", "asarray", "asanyarray", "ascontiguousarray", "atleast_1d", "atleast_2d", "squeeze", "ravel", "real", "float64", "asfarray"}
 VALUE_PRESERVING_METHODS = {"copy", "to_array", "flatten", "ravel", "squeeze", "astype", "view"}
 COMPLEX_SOURCES = {"eig", "eigvals", "roots"}
 REAL_SANITISERS = {"real", "abs", "absolute", "isreal"}
